@@ -122,7 +122,8 @@ class C18(Prop):
             if v == "ok":
                 ok += 1
                 from props.c03 import count_op, op_table
-                if g.get("o3.class") == "internal-error" and r.get("moded") != "0" and count_op(g.get(k, ""), "OpCall", op_table()) == 0:
+                nxt = "o%d.class" % (int(k[1:].split(".")[0]) + 1)        # the run that follows THIS Prepare
+                if g.get(nxt) == "internal-error" and r.get("moded") != "0" and count_op(g.get(k, ""), "OpCall", op_table()) == 0:
                     internal_after_ok += 1
                     viol.append((c, "the run ended in a machine-internal error although the verifier accepts the (call-free) program (%s)" % k))
             elif v.startswith("bad"):
